@@ -32,6 +32,8 @@ type Input struct {
 	MType   string `json:"mtype,omitempty"`
 	Col     int    `json:"col,omitempty"`
 	Row     int    `json:"row,omitempty"`
+	Mode    string `json:"mode,omitempty"` // t = "mode": decckm | deckpam | paste | m1000 | m1002 | m1003 | m1006
+	On      bool   `json:"on,omitempty"`
 }
 
 type Scn struct {
@@ -383,10 +385,36 @@ func Run(ctx *Ctx, sc *Scn) (evs []trace.Ev, note string) {
 	if h == nil {
 		return append(evs, trace.Ev{"ev": "panic", "what": "host session does not deliver input"}), "host session does not deliver input"
 	}
-	modes := fmt.Sprintf("ckm=%d kpam=%d", b2i(sc.Decckm), b2i(sc.Deckpam))
-
+	cur := *sc // the child's modes as they are now (a "mode" step changes them mid-history)
+	sc = &cur
 	for i, in := range sc.Inputs {
+		modes := fmt.Sprintf("ckm=%d kpam=%d", b2i(sc.Decckm), b2i(sc.Deckpam))
 		switch in.T {
+		case "mode":
+			switch in.Mode {
+			case "decckm":
+				sc.Decckm = in.On
+				set(in.On, "\x1b[?1h", "\x1b[?1l")
+			case "deckpam":
+				sc.Deckpam = in.On
+				set(in.On, "\x1b=", "\x1b>")
+			case "paste":
+				sc.Paste = in.On
+				set(in.On, "\x1b[?2004h", "\x1b[?2004l")
+			case "m1000":
+				sc.M1000 = in.On
+				set(in.On, "\x1b[?1000h", "\x1b[?1000l")
+			case "m1002":
+				sc.M1002 = in.On
+				set(in.On, "\x1b[?1002h", "\x1b[?1002l")
+			case "m1003":
+				sc.M1003 = in.On
+				set(in.On, "\x1b[?1003h", "\x1b[?1003l")
+			case "m1006":
+				sc.M1006 = in.On
+				set(in.On, "\x1b[?1006h", "\x1b[?1006l")
+			}
+			written()
 		case "key":
 			k := LibKey(in)
 			vt.Update(k)
@@ -548,6 +576,44 @@ func Generate(seed int64, thorough bool) []*Scn {
 	}
 	for p := 0; p < 6; p++ {
 		out = append(out, &Scn{Kind: "paste", Paste: p%2 == 1, Form: p / 2, Inputs: []Input{{T: "paste", Start: true}, {T: "key", Code: 'a'}, {T: "paste"}, {T: "paste"}, {T: "paste", Start: true}}})
+	}
+	// histories: the child changes its modes between inputs
+	nh := 12
+	if thorough {
+		nh = 400
+	}
+	modeNames := []string{"decckm", "deckpam", "paste", "m1000", "m1002", "m1003", "m1006"}
+	for k := 0; k < nh; k++ {
+		sc := &Scn{Kind: "history", Decckm: rng.Intn(2) == 0, Deckpam: rng.Intn(2) == 0, Paste: rng.Intn(2) == 0,
+			M1000: rng.Intn(2) == 0, M1002: rng.Intn(2) == 0, M1003: rng.Intn(2) == 0, M1006: rng.Intn(2) == 0, Form: rng.Intn(3)}
+		pasting := false
+		for n := 20 + rng.Intn(40); n > 0; n-- {
+			switch x := rng.Intn(10); {
+			case x < 3:
+				sc.Inputs = append(sc.Inputs, Input{T: "mode", Mode: modeNames[rng.Intn(len(modeNames))], On: rng.Intn(2) == 0})
+			case x < 6:
+				if rng.Intn(2) == 0 {
+					sc.Inputs = append(sc.Inputs, Input{T: "key", Name: names[rng.Intn(len(names))], Mods: rng.Intn(8)})
+				} else {
+					c := codes()[rng.Intn(len(codes()))]
+					sc.Inputs = append(sc.Inputs, Input{T: "key", Code: c, Mods: rng.Intn(8), Shifted: shiftedOf(c)})
+				}
+			case x < 7:
+				pasting = !pasting
+				sc.Inputs = append(sc.Inputs, Input{T: "paste", Start: pasting})
+			default:
+				btn := []int{0, 1, 2, 3, 64, 65}[rng.Intn(6)]
+				ty := []string{"press", "release", "motion"}[rng.Intn(3)]
+				if btn == 3 {
+					ty = "motion"
+				}
+				if btn >= 64 {
+					ty = "press"
+				}
+				sc.Inputs = append(sc.Inputs, Input{T: "mouse", Button: btn, MType: ty, Col: rng.Intn(320), Row: rng.Intn(260), Mods: rng.Intn(8)})
+			}
+		}
+		out = append(out, sc)
 	}
 	colsS := []int{0, 1, 79, 94, 95, 222, 223, 319}
 	rowsS := []int{0, 1, 23, 94, 222, 259}
